@@ -283,10 +283,9 @@ func ruleReplacementAccumulates(c *Ctx, rule string) {
 // rulePerMatchReplacer implements C05.R3/R4.
 func rulePerMatchReplacer(c *Ctx, rule string) {
 	r := c.R
-	init := c.Fn("engine", "InitReplacerState")
 	ex := c.Fn("engine", "executeReplace")
-	if init == nil || ex == nil {
-		r.Ob(rule, "anchor engine.InitReplacerState/executeReplace", "").Und("not found")
+	if ex == nil {
+		r.Ob(rule, "anchor engine.executeReplace", "").Und("not found")
 		return
 	}
 	// by role: the function that runs the replacer program (calls executeReplace)
@@ -299,50 +298,81 @@ func rulePerMatchReplacer(c *Ctx, rule string) {
 		return
 	}
 	ob := r.Ob(rule, "replace: every match gets its own replacer state", c.pos(sr.Pos()))
-	var inits []*ssa.Call
 	var exec *ssa.Call
 	instrsOf(sr, func(in ssa.Instruction) {
-		if call, ok := in.(*ssa.Call); ok {
-			if call.Call.StaticCallee() == init {
-				inits = append(inits, call)
-			}
-			if call.Call.StaticCallee() == ex {
-				exec = call
-			}
+		if call, ok := in.(*ssa.Call); ok && call.Call.StaticCallee() == ex {
+			exec = call
 		}
 	})
-	switch {
-	case exec == nil:
+	// by role: the initial replacer state of a match is whatever the replacer program starts from
+	var init *ssa.Function
+	var ini *ssa.Call
+	if exec == nil {
 		ob.Und("no call to executeReplace")
-	case len(inits) != 1:
-		ob.Bad(fmt.Sprintf("InitReplacerState is called %d time(s) in %s; expected once per match", len(inits), fnName(sr)))
-	default:
-		ini := inits[0]
-		ob.Pos = c.pos(ini.Pos())
-		loop := loopBlocks(sr, ini.Block())
+	} else {
 		st := exec.Call.Args[1]
-		okState, detail := false, ""
-		if p, ok := st.(*ssa.Phi); ok {
-			for _, e := range p.Edges {
-				if e == ssa.Value(ini) {
-					okState = true
-				} else if e != ssa.Value(exec) {
-					detail = "the replacer state also comes from " + exprStr(e)
+		var starts []ssa.Value
+		seen := map[ssa.Value]bool{}
+		var walk func(v ssa.Value)
+		walk = func(v ssa.Value) {
+			if seen[v] {
+				return
+			}
+			seen[v] = true
+			if p, ok := v.(*ssa.Phi); ok {
+				for _, e := range p.Edges {
+					walk(e)
+				}
+				return
+			}
+			if v != ssa.Value(exec) {
+				starts = append(starts, v)
+			}
+		}
+		walk(st)
+		loop := loopBlocks(sr, exec.Block())
+		// the loop over the matches is the loop around the replacer-program loop
+		var outer map[*ssa.BasicBlock]bool
+		for _, comp := range sccs(sr, func(a, b *ssa.BasicBlock) bool { return true }) {
+			in := map[*ssa.BasicBlock]bool{}
+			for _, x := range comp {
+				in[x] = true
+			}
+			if in[exec.Block()] && len(comp) > 1 {
+				outer = in
+			}
+		}
+		_ = loop
+		switch {
+		case len(starts) != 1:
+			var ss []string
+			for _, s := range starts {
+				ss = append(ss, exprStr(s))
+			}
+			ob.Bad(fmt.Sprintf("the replacer program of a match starts from %d different states (%s); expected exactly one state initialised for the current match", len(starts), strings.Join(ss, ", ")))
+		default:
+			call, isCall := starts[0].(*ssa.Call)
+			if !isCall || call.Call.StaticCallee() == nil || !c.isRepoFn(call.Call.StaticCallee()) {
+				ob.Und("the initial replacer state is " + exprStr(starts[0]) + ", not the result of a function of this repository")
+				break
+			}
+			ini, init = call, call.Call.StaticCallee()
+			ob.Pos = c.pos(ini.Pos())
+			fromMatch := false
+			for _, a := range ini.Call.Args {
+				s := exprStr(a)
+				if strings.Contains(s, "findMatches(") || strings.Contains(strings.ToLower(s), "match") {
+					fromMatch = true
 				}
 			}
-		} else if st == ssa.Value(ini) {
-			okState = true
-		}
-		arg0 := exprStr(ini.Call.Args[0])
-		switch {
-		case loop == nil || !loop[exec.Block()]:
-			ob.Bad("InitReplacerState is not called inside the loop over the matches: one replacer state (variables, replacement text) is shared by all matches of the command")
-		case !okState || detail != "":
-			ob.Bad("executeReplace does not start from the state initialised for the current match: " + detail)
-		case !strings.Contains(arg0, "findMatches(") && !strings.Contains(arg0, "foundMatches") && !strings.Contains(arg0, "match"):
-			ob.Bad("InitReplacerState is given " + arg0 + ", not the current match")
-		default:
-			ob.OKnt("InitReplacerState(" + arg0 + ", ...) per iteration; the replacer program runs on it and on executeReplace results only")
+			switch {
+			case outer == nil || !outer[ini.Block()]:
+				ob.Bad(init.Name() + " is not called inside the loop over the matches: one replacer state (variables, replacement text) is shared by all matches of the command")
+			case !fromMatch:
+				ob.Bad(init.Name() + " is not given the current match")
+			default:
+				ob.OKnt(exprStr(ini) + " per iteration; the replacer program runs on it and on executeReplace results only")
+			}
 		}
 	}
 	// what is appended is the state's match
@@ -369,28 +399,41 @@ func rulePerMatchReplacer(c *Ctx, rule string) {
 		}
 	})
 	ob2.Check(okApp, "append(replacedMatches, current_state.match)", "the value appended to the result is not the replacer state's match")
-	// InitReplacerState adds the built-ins to a copy of the match's variables
-	ob3 := r.Ob(rule, "InitReplacerState adds built-ins to a deep copy of the match's variables", c.pos(init.Pos()))
+	// the initial state's variables are a deep copy of the match's variables plus the built-ins: nothing is carried over from another match
+	if init == nil {
+		return
+	}
+	ob3 := r.Ob(rule, "the initial replacer state of a match shares no variable table with the match or with another match", c.pos(init.Pos()))
 	var bad []string
-	nAdd := 0
+	nAdd, nVars := 0, 0
+	stT := c.NamedType("engine", "ReplacerState")
 	instrsOf(init, func(in ssa.Instruction) {
-		call, ok := in.(*ssa.Call)
-		if !ok {
-			return
-		}
-		if sc := call.Call.StaticCallee(); sc != nil && sc.Name() == "Add" && len(call.Call.Args) >= 1 {
-			nAdd++
-			if fresh, why := c.deepFresh(call.Call.Args[0], 0); !fresh {
-				bad = append(bad, why)
+		switch x := in.(type) {
+		case *ssa.Call:
+			if sc := x.Call.StaticCallee(); sc != nil && sc.Name() == "Add" && len(x.Call.Args) >= 1 {
+				nAdd++
+				if fresh, why := c.deepFresh(x.Call.Args[0], 0); !fresh {
+					bad = append(bad, why)
+				}
+			}
+		case *ssa.Store:
+			if fa, ok := x.Addr.(*ssa.FieldAddr); ok && stT != nil && types.Identical(deref(fa.X.Type()), stT) {
+				ft := stT.Underlying().(*types.Struct).Field(fa.Field).Type()
+				if _, isAlloc := fa.X.(*ssa.Alloc); isAlloc && (isRefType(ft) || hasRefField(ft)) && fieldName(stT, fa.Field) != "match" {
+					nVars++
+					if fresh, why := c.deepFresh(x.Val, 0); !fresh {
+						bad = append(bad, "field "+fieldName(stT, fa.Field)+" <- "+why)
+					}
+				}
 			}
 		}
 	})
-	if nAdd == 0 {
-		ob3.Und("no Add calls found")
+	if nAdd == 0 || nVars == 0 {
+		ob3.Und(fmt.Sprintf("%s: %d Add calls and %d reference fields of the new state found", init.Name(), nAdd, nVars))
 	} else if len(bad) == 0 {
-		ob3.OKnt(fmt.Sprintf("%d Add calls, all on match.Variables.Copy().Hashmap()", nAdd))
+		ob3.OKnt(fmt.Sprintf("%s: %d Add calls and %d reference field(s) of the new state, all on a fresh deep copy", init.Name(), nAdd, nVars))
 	} else {
-		ob3.Bad("built-in variables are added to " + strings.Join(uniq(bad), ", ") + ", which aliases the reported match's Variables: built-ins such as totalMatches leak into the match")
+		ob3.Bad(init.Name() + " builds the state from " + strings.Join(uniq(bad), ", ") + ", which is not a fresh copy: variables leak between the reported match and the replacer or from one match to the next")
 	}
 }
 
@@ -487,4 +530,178 @@ func ruleItemKinds(c *Ctx, rule string) {
 	want := "(rs.variables.Get(name)#0.getType() == 0) && rs.variables.Get(name)#1"
 	ob2.Check(n == 1 && got == want, "one append under ["+got+"]", fmt.Sprintf("%d append(s) to the replacement under [%s]; expected one under [%s] (found && string-typed)", n, got, want))
 	ob2.Nontrivial = true
+}
+
+// ruleProcessEnvFresh implements C05.R7 (also used by C02): every run of process statements (a transform, a predicate) gets an
+// environment map built for that run; `set` statements write into it, so a map that outlives the run leaks between runs.
+func ruleProcessEnvFresh(c *Ctx, rule string) {
+	ruleEnvFresh(c, rule, "engine", "ProcessState", "what one transform or predicate `set`s is visible to the next one")
+}
+
+// ruleCheckerEnvFresh is the same rule for the type checker's environment (C12.R7).
+func ruleCheckerEnvFresh(c *Ctx, rule string) {
+	ruleEnvFresh(c, rule, "bytecode", "ProcessTypeInfo", "the variable types recorded while checking one `set` body are still there when the next body is checked, so the verdict on a body depends on the definitions before it")
+}
+
+func ruleEnvFresh(c *Ctx, rule, pkg, typ, consequence string) {
+	r := c.R
+	psT := c.NamedType(pkg, typ)
+	if psT == nil {
+		r.Ob(rule, "anchor "+pkg+"."+typ, "").Und("not found")
+		return
+	}
+	st := psT.Underlying().(*types.Struct)
+	n := 0
+	for _, fn := range c.SrcFuncs(pkg) {
+		// construction sites: a local ProcessState whose reference fields are stored in this function, outside the statement
+		// executors themselves (they thread the state they are given)
+		if len(fn.Params) > 0 {
+			threads := false
+			for _, p := range fn.Params {
+				if types.Identical(p.Type(), psT) || types.Identical(deref(p.Type()), psT) {
+					threads = true
+				}
+			}
+			if threads {
+				continue
+			}
+		}
+		k := 0
+		instrsOf(fn, func(in ssa.Instruction) {
+			s, ok := in.(*ssa.Store)
+			if !ok {
+				return
+			}
+			fa, ok := s.Addr.(*ssa.FieldAddr)
+			if !ok || !types.Identical(deref(fa.X.Type()), psT) {
+				return
+			}
+			if _, isAlloc := fa.X.(*ssa.Alloc); !isAlloc {
+				return
+			}
+			ft := st.Field(fa.Field).Type()
+			if _, isMap := ft.Underlying().(*types.Map); !isMap {
+				return
+			}
+			n++
+			k++
+			ob := r.Ob(rule, fmt.Sprintf("%s: process run #%d gets an environment of its own (field %s)", fnName(fn), k, st.Field(fa.Field).Name()), c.pos(s.Pos()))
+			if fresh, why := c.deepFresh(s.Val, 0); fresh {
+				ob.OKnt("the map is created in this function for this run")
+			} else {
+				ob.Bad("the environment of the run is " + why + ", a map that outlives the run: " + consequence)
+			}
+		})
+	}
+	r.Floor(rule, "process-run construction sites", n, 2)
+}
+
+// ruleReplacerOwnsItsTables extends C05.R3: no table that is written while one match is being replaced is carried to the next match.
+func ruleReplacerOwnsItsTables(c *Ctx, rule string) {
+	r := c.R
+	ex := c.Fn("engine", "executeReplace")
+	stT := c.NamedType("engine", "ReplacerState")
+	if ex == nil || stT == nil {
+		r.Ob(rule, "anchor engine.executeReplace / ReplacerState", "").Und("not found")
+		return
+	}
+	var sr *ssa.Function
+	for _, f := range c.callersIn("engine", ex) {
+		sr = f
+	}
+	if sr == nil {
+		return // reported by rulePerMatchReplacer
+	}
+	var exec *ssa.Call
+	instrsOf(sr, func(in ssa.Instruction) {
+		if call, ok := in.(*ssa.Call); ok && call.Call.StaticCallee() == ex {
+			exec = call
+		}
+	})
+	if exec == nil {
+		return
+	}
+	var outer map[*ssa.BasicBlock]bool
+	for _, comp := range sccs(sr, func(a, b *ssa.BasicBlock) bool { return true }) {
+		in := map[*ssa.BasicBlock]bool{}
+		for _, x := range comp {
+			in[x] = true
+		}
+		if in[exec.Block()] && len(comp) > 1 {
+			outer = in
+		}
+	}
+	sst := stT.Underlying().(*types.Struct)
+	// fields of the replacer state that are mutated in place somewhere under executeReplace
+	mut := c.mutatingMethods()
+	mutated := map[string]string{}
+	for fn := range c.Reachable(ex) {
+		if !c.isRepoFn(fn) {
+			continue
+		}
+		instrsOf(fn, func(in ssa.Instruction) {
+			fieldOf := func(v ssa.Value) string {
+				ch := traceAddr(v)
+				for _, s := range ch.Steps {
+					if s.Kind == "field" && s.Struct != nil && types.Identical(s.Struct, stT) {
+						return s.Field
+					}
+				}
+				return ""
+			}
+			switch x := in.(type) {
+			case *ssa.MapUpdate:
+				if f := fieldOf(x.Map); f != "" {
+					mutated[f] = "map update in " + fnName(fn)
+				}
+			case *ssa.Store:
+				if ia, ok := x.Addr.(*ssa.IndexAddr); ok {
+					if f := fieldOf(ia.X); f != "" {
+						mutated[f] = "element store in " + fnName(fn)
+					}
+				}
+			case *ssa.Call:
+				if sc := x.Call.StaticCallee(); sc != nil && mut[sc] != "" && len(x.Call.Args) > 0 {
+					if f := fieldOf(x.Call.Args[0]); f != "" {
+						mutated[f] = "call of " + fnName(sc) + " in " + fnName(fn)
+					}
+				}
+			}
+		})
+	}
+	ob := r.Ob(rule, "replace: no table written while replacing one match is carried to the next match", c.pos(sr.Pos()))
+	var bad []string
+	nstores := 0
+	instrsOf(sr, func(in ssa.Instruction) {
+		s, ok := in.(*ssa.Store)
+		if !ok || outer == nil || !outer[s.Block()] {
+			return
+		}
+		fa, ok := s.Addr.(*ssa.FieldAddr)
+		if !ok || !types.Identical(deref(fa.X.Type()), stT) {
+			return
+		}
+		ft := sst.Field(fa.Field).Type()
+		if !isRefType(ft) && !hasRefField(ft) {
+			return
+		}
+		nstores++
+		name := sst.Field(fa.Field).Name()
+		definedOutside := false
+		if vi, ok := s.Val.(ssa.Instruction); ok && vi.Block() != nil && !outer[vi.Block()] {
+			definedOutside = true
+		}
+		if _, isParam := s.Val.(*ssa.Parameter); isParam {
+			definedOutside = true
+		}
+		if definedOutside && mutated[name] != "" {
+			bad = append(bad, fmt.Sprintf("field %s of the per-match state is set to %s, which is created once for all matches and written during a match (%s)", name, exprStr(s.Val), mutated[name]))
+		}
+	})
+	r.Tables["replacer_fields_mutated_in_place"] = mutated
+	if len(bad) == 0 {
+		ob.OKnt(fmt.Sprintf("%d store(s) into reference fields of the per-match state inside the loop over the matches; none installs a table that outlives the match and is written during it", nstores))
+	} else {
+		ob.Bad(strings.Join(bad, "; ") + ": what is computed for one match can change the replacement of a later match")
+	}
 }
